@@ -13,7 +13,8 @@ for d in sorted(glob.glob("/tmp/wt*-C*/MUTANT_*")):
     e = json.load(open(ev))
     wt = os.path.basename(os.path.dirname(d))
     prop = wt.split("-")[1]
-    rnd = wt[2] if wt[2].isdigit() else ""  # wt-C01 -> round 1 (no prefix), wt2-C01 -> "2", ... wt5-C01 -> "5"
+    import re
+    rnd = re.match(r"wt(\d*)-", wt).group(1)  # wt-C01 -> round 1 (no prefix), wt2-C01 -> "2", ... wt10-C01 -> "10"
     mid = f"{prop}-{rnd}{os.path.basename(d).replace('MUTANT_', '')}"
     ok_demo = e.get("demo_on_clean_tree") == "passes" and e.get("demo_with_change") == "fails"
     ok_suite = e.get("existing_suite_ok")
